@@ -21,6 +21,9 @@ func init() {
 		Run: func(c *Ctx) {
 			readLineRules(c, "C11")
 			serverUpgraderRules(c, "C11")
+			httpUpgraderRules(c, "C11")
+			responseWriterRules(c, "C11")
+			requestWriterRules(c, "C11")
 			dialerUpgradeRules(c, "C11")
 			indexResultRules(c, "C11")
 			c11BufferSizes(c)
